@@ -1,7 +1,8 @@
-use std::sync::{
-    Arc,
-    atomic::{AtomicUsize, Ordering},
-};
+#[cfg(not(jxl_oxide_verif))]
+use std::sync::atomic::AtomicUsize;
+use std::sync::{Arc, atomic::Ordering};
+#[cfg(jxl_oxide_verif)]
+use verif_atomic::AtomicUsize;
 
 /// Allocation tracker with total memory limit.
 #[derive(Debug, Clone)]
@@ -221,6 +222,95 @@ mod verif {
         pub fn verif_fail_at(&self, idx: Option<usize>, sticky: bool) {
             self.inner.verif.fail_sticky.store(sticky, Ordering::SeqCst);
             self.inner.verif.fail_at.store(idx.unwrap_or(usize::MAX), Ordering::SeqCst);
+        }
+    }
+}
+
+/// Verification hook (only with `--cfg jxl_oxide_verif`): the budget counter reports every atomic operation to an
+/// external scheduler before performing it, so that all interleavings of concurrent users can be enumerated.
+#[cfg(jxl_oxide_verif)]
+pub mod verif_atomic {
+    use std::sync::atomic::Ordering;
+    use std::sync::{Arc, RwLock};
+
+    type Hook = Arc<dyn Fn(usize) + Send + Sync>;
+    static HOOK: RwLock<Option<Hook>> = RwLock::new(None);
+
+    /// Installs (or removes) the callback invoked with the counter's address before each atomic operation.
+    pub fn set_hook(hook: Option<Hook>) {
+        *HOOK.write().unwrap() = hook;
+    }
+
+    #[derive(Debug)]
+    pub struct AtomicUsize(std::sync::atomic::AtomicUsize);
+
+    impl AtomicUsize {
+        pub fn new(v: usize) -> Self {
+            Self(std::sync::atomic::AtomicUsize::new(v))
+        }
+
+        fn point(&self) {
+            let hook = HOOK.read().unwrap().clone();
+            if let Some(hook) = hook {
+                hook(self as *const Self as usize);
+            }
+        }
+
+        pub fn load(&self, order: Ordering) -> usize {
+            self.point();
+            self.0.load(order)
+        }
+
+        pub fn store(&self, v: usize, order: Ordering) {
+            self.point();
+            self.0.store(v, order)
+        }
+
+        pub fn swap(&self, v: usize, order: Ordering) -> usize {
+            self.point();
+            self.0.swap(v, order)
+        }
+
+        pub fn fetch_add(&self, v: usize, order: Ordering) -> usize {
+            self.point();
+            self.0.fetch_add(v, order)
+        }
+
+        pub fn fetch_sub(&self, v: usize, order: Ordering) -> usize {
+            self.point();
+            self.0.fetch_sub(v, order)
+        }
+
+        pub fn compare_exchange(
+            &self,
+            current: usize,
+            new: usize,
+            success: Ordering,
+            failure: Ordering,
+        ) -> Result<usize, usize> {
+            self.point();
+            self.0.compare_exchange(current, new, success, failure)
+        }
+
+        pub fn compare_exchange_weak(
+            &self,
+            current: usize,
+            new: usize,
+            success: Ordering,
+            failure: Ordering,
+        ) -> Result<usize, usize> {
+            self.point();
+            self.0.compare_exchange(current, new, success, failure)
+        }
+
+        pub fn fetch_update(
+            &self,
+            set_order: Ordering,
+            fetch_order: Ordering,
+            f: impl FnMut(usize) -> Option<usize>,
+        ) -> Result<usize, usize> {
+            self.point();
+            self.0.fetch_update(set_order, fetch_order, f)
         }
     }
 }
